@@ -58,6 +58,33 @@ type pipeSpec struct {
 	Take   int    `json:"take"`  // consumer read size
 	Stream bool   `json:"stream,omitempty"`
 	Yield  bool   `json:"yield,omitempty"` // conc mode: UnwrapKeyFn yields/sleeps (slow key vault)
+	// the sources deliver their last bytes TOGETHER with io.EOF (n>0, EOF) instead of a separate (0, EOF)
+	EOFData bool `json:"eofdata,omitempty"`
+}
+
+// faultSpec: a stream that ends on an error path of the library.
+//
+//	tamper      Decrypt of the document with byte At (from the end of the header) flipped
+//	truncate    Decrypt of the document cut At bytes after the header
+//	closeearly  Decrypt, the consumer reads At bytes and closes the stream
+//	enccloseearly  Encrypt, the consumer reads At bytes of the ciphertext and closes the stream
+//	srcfail     Decrypt from a source that fails (with data: n>0, err) At bytes after the header
+//	encsrcfail  Encrypt from a source that fails after At bytes
+//	unwrapfail  Decrypt whose UnwrapKeyFn returns an error
+//	badheader   Decrypt of a document whose manifest line is damaged
+type faultSpec struct {
+	Fault string   `json:"fault"`
+	Pipe  pipeSpec `json:"pipe"`
+	At    int      `json:"at"`
+}
+
+type poolOp struct {
+	Op   string `json:"op"` // get | append | resize | put
+	U    int    `json:"u"`
+	Cap  int    `json:"cap,omitempty"`
+	D    []byte `json:"d,omitempty"`
+	Mode string `json:"mode,omitempty"` // len+ | cap-1 | cap | cap+1 | shrink
+	K    int    `json:"k,omitempty"`
 }
 
 type nestSpec struct {
@@ -68,32 +95,40 @@ type nestSpec struct {
 }
 
 type c08Input struct {
-	Kind    string     `json:"kind"`
-	Pipes   []pipeSpec `json:"pipes,omitempty"`
-	Nests   []nestSpec `json:"nests,omitempty"`
-	Workers int        `json:"workers,omitempty"`
-	Rounds  int        `json:"rounds,omitempty"`
-	Seed    uint64     `json:"seed,omitempty"`
-	Stale   []byte     `json:"stale,omitempty"`
-	Data    []byte     `json:"data,omitempty"`
-	Names   []int      `json:"names,omitempty"`
+	Kind    string      `json:"kind"`
+	Pipes   []pipeSpec  `json:"pipes,omitempty"`
+	Nests   []nestSpec  `json:"nests,omitempty"`
+	Workers int         `json:"workers,omitempty"`
+	Rounds  int         `json:"rounds,omitempty"`
+	Seed    uint64      `json:"seed,omitempty"`
+	Stale   []byte      `json:"stale,omitempty"`
+	Data    []byte      `json:"data,omitempty"`
+	Names   []int       `json:"names,omitempty"`
+	Faults  []faultSpec `json:"faults,omitempty"` // nested/big: run (in order) before pipeline 0 starts; index -k in a nest = fault k-1 run there
+	MinCap  int         `json:"mincap,omitempty"`
+	Pops    []poolOp    `json:"pops,omitempty"`
 }
 
 // ---------------------------------------------------------------------------------------
 // one pipeline
 
 type hooks struct {
-	key  func()         // WrapKeyFn / UnwrapKeyFn
-	src  func(k int)    // after the k-th Read of the source delivered its bytes
-	cons func(k int)    // after the k-th Read of the consumer
+	key  func()      // WrapKeyFn / UnwrapKeyFn
+	src  func(k int) // after the k-th Read of the source delivered its bytes
+	cons func(k int) // after the k-th Read of the consumer
 }
 
 type chunkReader struct {
-	data  []byte
-	chunk int
-	k     int
-	hook  func(k int)
+	data    []byte
+	chunk   int
+	k       int
+	hook    func(k int)
+	eofData bool // last bytes come together with io.EOF
+	failAt  int  // >0: after failAt bytes the source fails, the failing Read still delivers data
+	sent    int
 }
+
+var errSource = errors.New("c08: scripted source failure")
 
 func (r *chunkReader) Read(p []byte) (int, error) {
 	n := r.chunk
@@ -106,15 +141,27 @@ func (r *chunkReader) Read(p []byte) (int, error) {
 	if n > len(r.data) {
 		n = len(r.data)
 	}
+	failing := false
+	if r.failAt > 0 && r.sent+n >= r.failAt {
+		n = r.failAt - r.sent
+		failing = true
+	}
 	copy(p, r.data[:n])
 	r.data = r.data[n:]
+	r.sent += n
 	k := r.k
 	r.k++
 	if r.hook != nil {
 		r.hook(k) // foreign code runs while the caller's buffer holds the fresh bytes
 	}
+	if failing {
+		return n, errSource // (n>0, err): data delivered together with the error
+	}
 	if n == 0 {
 		return 0, io.EOF
+	}
+	if r.eofData && len(r.data) == 0 {
+		return n, io.EOF
 	}
 	return n, nil
 }
@@ -194,7 +241,7 @@ func runPipe(p pipeSpec, he, hd *hooks) (cls string, hdrLen int, detail string) 
 	if p.Chacha {
 		cipher = v1.CipherChaCha20Poly1305
 	}
-	encR, err := v1.Encrypt(&chunkReader{data: append([]byte(nil), msg...), chunk: p.Chunk, hook: he.src}, v1.EncryptOptions{
+	encR, err := v1.Encrypt(&chunkReader{data: append([]byte(nil), msg...), chunk: p.Chunk, hook: he.src, eofData: p.EOFData}, v1.EncryptOptions{
 		WrapKeyFn: func(pk []byte, alg, kn string, nonce []byte) ([]byte, []byte, error) {
 			if he.key != nil {
 				he.key()
@@ -224,7 +271,7 @@ func runPipe(p pipeSpec, he, hd *hooks) (cls string, hdrLen int, detail string) 
 				}
 			}
 		}
-		decSrc = &chunkReader{data: ct, chunk: p.Chunk, hook: hd.src}
+		decSrc = &chunkReader{data: ct, chunk: p.Chunk, hook: hd.src, eofData: p.EOFData}
 	}
 	decR, err := v1.Decrypt(decSrc, v1.DecryptOptions{
 		UnwrapKeyFn: func(wk []byte, alg, kn string, nonce, tag []byte) ([]byte, error) {
@@ -248,6 +295,146 @@ func runPipe(p pipeSpec, he, hd *hooks) (cls string, hdrLen int, detail string) 
 	return classify(out, err, msg), hdrLen, detail
 }
 
+// errClass: the projected error observable
+func errClass(err error) string {
+	switch {
+	case err == nil:
+		return "nil"
+	case errors.Is(err, v1.ErrDecryptionFailed):
+		return "ErrDecryptionFailed"
+	case errors.Is(err, v1.ErrDecryptionSignature):
+		return "ErrDecryptionSignature"
+	case errors.Is(err, errSource):
+		return "errSource"
+	case errors.Is(err, io.ErrClosedPipe):
+		return "ErrClosedPipe"
+	case errors.Is(err, io.ErrUnexpectedEOF):
+		return "ErrUnexpectedEOF"
+	}
+	return "other"
+}
+
+func headerLen(ct []byte) int {
+	nl := 0
+	for i, b := range ct {
+		if b == '\n' {
+			nl++
+			if nl == 3 {
+				return i + 1
+			}
+		}
+	}
+	return len(ct)
+}
+
+// runFault drives one stream onto an error path; the outcome (error class, how many bytes came out
+// and whether they are a prefix of the right answer) is a deterministic function of the spec.
+func runFault(f faultSpec) (outcome string) {
+	defer func() {
+		if r := recover(); r != nil {
+			outcome = "panic:" + fmt.Sprint(r)
+		}
+	}()
+	p := f.Pipe
+	msg, key := p.msg(), p.key()
+	cipher := v1.CipherAESGCM
+	if p.Chacha {
+		cipher = v1.CipherChaCha20Poly1305
+	}
+	wrap := func(pk []byte, alg, kn string, nonce []byte) ([]byte, []byte, error) {
+		return kitcrypto.Encrypt(pk, alg, key, nonce, nil)
+	}
+	encOpts := v1.EncryptOptions{WrapKeyFn: wrap, Algorithm: v1.KeyAlgorithmAES256KW, KeyName: p.keyName(), Cipher: &cipher}
+	describe := func(out []byte, err error, want []byte) string {
+		pre := len(out) <= len(want) && bytes.Equal(out, want[:len(out)])
+		return fmt.Sprintf("%s/out=%d/prefix=%v", errClass(err), len(out), pre)
+	}
+	readSome := func(r io.Reader, at int) ([]byte, error) {
+		buf := make([]byte, at)
+		n, err := io.ReadFull(r, buf)
+		if c, ok := r.(io.Closer); ok {
+			_ = c.Close()
+		}
+		if err == io.ErrUnexpectedEOF || err == io.EOF {
+			err = nil
+		}
+		return buf[:n], err
+	}
+	switch f.Fault {
+	case "encsrcfail":
+		r, err := v1.Encrypt(&chunkReader{data: append([]byte(nil), msg...), chunk: p.Chunk, failAt: f.At + 1}, encOpts)
+		if err != nil {
+			return "enc:" + errClass(err)
+		}
+		out, err := consume(r, p.Take, nil)
+		return fmt.Sprintf("%s/out=%d", errClass(err), len(out))
+	case "enccloseearly":
+		r, err := v1.Encrypt(&chunkReader{data: append([]byte(nil), msg...), chunk: p.Chunk}, encOpts)
+		if err != nil {
+			return "enc:" + errClass(err)
+		}
+		out, err := readSome(r, f.At+1)
+		return fmt.Sprintf("%s/out=%d", errClass(err), len(out))
+	}
+	r, err := v1.Encrypt(&chunkReader{data: append([]byte(nil), msg...), chunk: p.Chunk}, encOpts)
+	if err != nil {
+		return "enc:" + errClass(err)
+	}
+	ct, err := consume(r, 0, nil)
+	if err != nil {
+		return "encstream:" + errClass(err)
+	}
+	hl := headerLen(ct)
+	src := &chunkReader{data: ct, chunk: p.Chunk}
+	unwrapErr := false
+	switch f.Fault {
+	case "tamper":
+		if hl < len(ct) {
+			ct[hl+f.At%(len(ct)-hl)] ^= 0x20
+		}
+	case "truncate":
+		cut := hl + f.At
+		if cut < len(ct) {
+			src.data = ct[:cut]
+		}
+	case "srcfail":
+		src.failAt = hl + f.At + 1
+	case "unwrapfail":
+		unwrapErr = true
+	case "badheader":
+		// damage with an outcome that does not depend on the (random) wrapped key
+		switch f.At % 3 {
+		case 0:
+			ct[0] ^= 0x01 // scheme line
+		case 1:
+			for i := hl - 45; i < hl-1; i++ {
+				ct[i] = 'A' // a well-formed but wrong MAC
+			}
+		default:
+			for i := 16; i < hl-46; i++ {
+				ct[i] = 'x' // manifest is no JSON any more
+			}
+		}
+	}
+	dr, err := v1.Decrypt(src, v1.DecryptOptions{
+		UnwrapKeyFn: func(wk []byte, alg, kn string, nonce, tag []byte) ([]byte, error) {
+			if unwrapErr {
+				return nil, errors.New("key vault unavailable")
+			}
+			return kitcrypto.Decrypt(wk, alg, key, nonce, tag, nil)
+		},
+	})
+	if err != nil {
+		return "dec:" + errClass(err)
+	}
+	if f.Fault == "closeearly" {
+		out, err := readSome(dr, f.At+1)
+		return describe(out, err, msg)
+	}
+	out, err := consume(dr, p.Take, nil)
+	return describe(out, err, msg)
+}
+
 func worse(a, b string) string {
 	if a == "" || a == "Same" {
 		return b
@@ -258,7 +445,7 @@ func worse(a, b string) string {
 // ---------------------------------------------------------------------------------------
 // nested (deterministic) mode
 
-func runNested(in c08Input) (classes []string, hdr []int, solo []string, notes []string) {
+func runNested(in c08Input) (classes []string, hdr []int, solo []string, notes []string, faults []string) {
 	prev := runtime.GOMAXPROCS(1)
 	defer runtime.GOMAXPROCS(prev)
 	gc := debug.SetGCPercent(-1)
@@ -271,8 +458,40 @@ func runNested(in c08Input) (classes []string, hdr []int, solo []string, notes [
 		q.Stream = false
 		solo[i], hdr[i], _ = runPipe(q, nil, nil)
 	}
+	// faults: every one first alone (twice: the outcome must be reproducible at all), then in its place
+	faultSolo := make([]string, len(in.Faults))
+	faults = make([]string, len(in.Faults))
+	nested := map[int]bool{}
+	for _, ns := range in.Nests {
+		for _, j := range ns.Pipes {
+			if j < 0 {
+				nested[-j-1] = true
+			}
+		}
+	}
+	doFault := func(k int) {
+		got := runFault(in.Faults[k])
+		if got == faultSolo[k] && faults[k] != "Differs" {
+			faults[k] = "Same"
+		} else {
+			faults[k] = "Differs"
+			notes = append(notes, fmt.Sprintf("fault %d (%s): %s, alone %s", k, in.Faults[k].Fault, got, faultSolo[k]))
+		}
+	}
+	for k := range in.Faults {
+		faultSolo[k] = runFault(in.Faults[k])
+	}
+	for k := range in.Faults {
+		if !nested[k] {
+			doFault(k) // a stream has just ended on an error path; now the pipelines run
+		}
+	}
 	inner := func(idx []int) {
 		for _, j := range idx {
+			if j < 0 && -j-1 < len(in.Faults) {
+				doFault(-j - 1)
+				continue
+			}
 			if j <= 0 || j >= n {
 				continue
 			}
@@ -314,6 +533,11 @@ func runNested(in c08Input) (classes []string, hdr []int, solo []string, notes [
 			notes = append(notes, fmt.Sprintf("pipe %d: solo run gives %s", i, solo[i]))
 		}
 	}
+	for k := range faults {
+		if faults[k] == "" {
+			faults[k] = "Same" // nested at a callback index that A never reached
+		}
+	}
 	return
 }
 
@@ -332,8 +556,11 @@ func coqKind(k string) string {
 func coqClasses(cs []string) string { return hx.CoqList(cs) }
 
 func c08Nested(ctx *core.Ctx, in c08Input) {
-	classes, hdr, _, notes := runNested(in)
+	classes, hdr, _, notes, faults := runNested(in)
 	c := hx.Case{Kind: in.Kind, Input: hx.MustJSON(in), Facts: map[string]any{}}
+	for _, f := range in.Faults {
+		ctx.Sink.Count("fault=" + f.Fault)
+	}
 	small := true
 	shape := ""
 	for _, p := range in.Pipes {
@@ -351,9 +578,12 @@ func c08Nested(ctx *core.Ctx, in c08Input) {
 		}
 		ctx.Sink.Count("nest_at=" + side + "/" + ns.Kind)
 	}
+	for _, f := range in.Faults {
+		nshape += fmt.Sprintf("F:%s:%d:%d|", f.Fault, f.Pipe.Len, f.At)
+	}
 	c.Class = in.Kind + "/" + shape + "/" + nshape
 	c.Trivial = len(in.Nests) == 0 || len(in.Pipes) < 2
-	c.Observed = map[string]any{"classes": classes, "notes": notes}
+	c.Observed = map[string]any{"classes": classes, "faults": faults, "notes": notes}
 	if len(notes) > 0 {
 		c.Note = strings.Join(notes, "; ")
 	}
@@ -364,19 +594,28 @@ func c08Nested(ctx *core.Ctx, in c08Input) {
 		}
 		nss := make([]string, len(in.Nests))
 		for i, ns := range in.Nests {
-			ps := make([]int64, len(ns.Pipes))
-			for j, x := range ns.Pipes {
-				ps[j] = int64(x)
+			var ps []int64
+			for _, x := range ns.Pipes {
+				if x > 0 { // nested faults are not modelled: they hold no buffer when they are over
+					ps = append(ps, int64(x))
+				}
 			}
 			nss[i] = fmt.Sprintf("mkN %s %s %s %s", hx.CoqBool(ns.Dec), coqKind(ns.Kind), hx.CoqZ(int64(ns.Idx)), hx.CoqZs(ps))
 		}
-		c.Coq = fmt.Sprintf("CNest %s %s %s", hx.CoqList(pds), hx.CoqList(nss), coqClasses(classes))
+		if len(in.Faults) > 0 {
+			c.Coq = fmt.Sprintf("CNestF %s %s %s %s", coqClasses(faults), hx.CoqList(pds), hx.CoqList(nss), coqClasses(classes))
+		} else {
+			c.Coq = fmt.Sprintf("CNest %s %s %s", hx.CoqList(pds), hx.CoqList(nss), coqClasses(classes))
+		}
 	} else {
-		c.Coq = fmt.Sprintf("CObs %s", coqClasses(classes))
+		c.Coq = fmt.Sprintf("CObs %s", coqClasses(append(append([]string{}, faults...), classes...)))
 	}
 	ctx.Sink.Count("kind=" + in.Kind)
 	for _, cl := range classes {
 		ctx.Sink.Count("class=" + cl)
+	}
+	for _, cl := range faults {
+		ctx.Sink.Count("faultclass=" + cl)
 	}
 	ctx.Sink.Add(c)
 }
@@ -396,9 +635,120 @@ func c08Pool(ctx *core.Ctx, in c08Input) {
 		Class:    fmt.Sprintf("pool/%d/%d", len(in.Stale), len(in.Data)),
 		Trivial:  len(in.Stale) == 0,
 		Observed: map[string]any{"got_len": gotLen, "seen_len": len(g)},
-		Coq: fmt.Sprintf("CPool %s %s %s %s", hx.CoqBytes(in.Stale), hx.CoqBytes(in.Data), hx.CoqZ(int64(gotLen)), hx.CoqBytes(g))}
+		Coq:      fmt.Sprintf("CPool %s %s %s %s", hx.CoqBytes(in.Stale), hx.CoqBytes(in.Data), hx.CoqZ(int64(gotLen)), hx.CoqBytes(g))}
 	ctx.Sink.Count("kind=pool")
 	ctx.Sink.Add(c)
+}
+
+// c08PoolSeq: Get / append / Resize / Put by several users of ONE pool; every user writes only
+// bytes of its own alphabet (16*u+1 .. 16*u+15), so foreign bytes are recognisable; after each
+// operation the acting user's view of its slice is recorded.
+func c08PoolSeq(ctx *core.Ctx, in c08Input) {
+	pool := byteslicepool.NewByteSlicePool(in.MinCap)
+	held := map[int][]byte{}
+	var ops, seen []string
+	shrink, recycled := false, false
+	puts := 0
+	for _, o := range in.Pops {
+		s, has := held[o.U]
+		switch o.Op {
+		case "get":
+			if has {
+				continue
+			}
+			s = pool.Get(o.Cap)
+			held[o.U] = s
+			if puts > 0 {
+				recycled = true
+			}
+			ops = append(ops, fmt.Sprintf("PGet %s %s", hx.CoqZ(int64(o.U)), hx.CoqZ(int64(o.Cap))))
+		case "append":
+			if !has {
+				continue
+			}
+			s = append(s, o.D...)
+			held[o.U] = s
+			ops = append(ops, fmt.Sprintf("PAppend %s %s", hx.CoqZ(int64(o.U)), hx.CoqBytes(o.D)))
+		case "resize":
+			if !has {
+				continue
+			}
+			n := len(s) + o.K
+			switch o.Mode {
+			case "cap-1":
+				n = cap(s) - 1
+			case "cap":
+				n = cap(s)
+			case "cap+1":
+				n = cap(s) + 1
+			case "shrink":
+				n = len(s) - o.K
+			}
+			if n < 0 {
+				n = 0
+			}
+			if o.Mode != "shrink" && n < len(s) {
+				n = len(s)
+			}
+			if n < len(s) {
+				shrink = true
+			}
+			s = pool.Resize(s, n)
+			held[o.U] = s
+			ops = append(ops, fmt.Sprintf("PResize %s %s", hx.CoqZ(int64(o.U)), hx.CoqZ(int64(n))))
+		case "put":
+			if !has {
+				continue
+			}
+			pool.Put(s)
+			delete(held, o.U)
+			puts++
+			ops = append(ops, fmt.Sprintf("PPut %s", hx.CoqZ(int64(o.U))))
+			seen = append(seen, "[]")
+			continue
+		default:
+			continue
+		}
+		seen = append(seen, hx.CoqBytes(held[o.U]))
+	}
+	c := hx.Case{Kind: "poolseq", Input: hx.MustJSON(in), Facts: map[string]any{"shrinks_before_put": shrink},
+		Class: fmt.Sprintf("poolseq/%d/%s", in.MinCap, strings.Join(ops, ";")), Trivial: !recycled,
+		Observed: map[string]any{"ops": len(ops)},
+		Coq:      fmt.Sprintf("CPoolSeq %s %s", hx.CoqList(ops), hx.CoqList(seen))}
+	ctx.Sink.Count("kind=poolseq")
+	ctx.Sink.Add(c)
+}
+
+func genPoolSeq(r *hx.Rand) c08Input {
+	users := r.Range(2, 3)
+	var pops []poolOp
+	holding := map[int]bool{}
+	n := r.Range(6, 28)
+	alpha := func(u, k int) []byte {
+		d := make([]byte, k)
+		for i := range d {
+			d[i] = byte(16*u + 1 + r.Intn(15))
+		}
+		return d
+	}
+	for len(pops) < n {
+		u := 1 + r.Intn(users)
+		if !holding[u] {
+			pops = append(pops, poolOp{Op: "get", U: u, Cap: []int{0, 1, 8, 64, 100}[r.Intn(5)]})
+			holding[u] = true
+			continue
+		}
+		switch r.Intn(5) {
+		case 0, 1:
+			pops = append(pops, poolOp{Op: "append", U: u, D: alpha(u, r.Range(1, 40))})
+		case 2:
+			pops = append(pops, poolOp{Op: "resize", U: u, Mode: []string{"len+", "len+", "cap-1", "cap", "cap+1"}[r.Intn(5)], K: r.Range(0, 48)})
+		default:
+			pops = append(pops, poolOp{Op: "put", U: u})
+			holding[u] = false
+		}
+	}
+	return c08Input{Kind: "poolseq", MinCap: []int{0, 4, 16, 64}[r.Intn(4)], Pops: pops}
 }
 
 func regObs(names []int, ls []logger.Logger) string {
@@ -542,20 +892,29 @@ func runConc(in c08Input) concResult {
 		result string
 		lg     logger.Logger
 		sched  cron.Schedule
+		fault  faultSpec
 	}
 	r := hx.NewRand(in.Seed)
 	jobs := make([][]job, W)
 	for w := 0; w < W; w++ {
 		for k := 0; k < R; k++ {
-			j := job{kind: r.Intn(5)}
+			j := job{kind: r.Intn(6)}
 			switch j.kind {
+			case 5:
+				fk := []string{"tamper", "truncate", "closeearly", "enccloseearly", "srcfail", "encsrcfail", "unwrapfail", "badheader"}[r.Intn(8)]
+				ln := r.Range(1, 3000)
+				if r.Chance(1, 4) {
+					ln = 65536 + r.Range(1, 3000)
+				}
+				j.fault = faultSpec{Fault: fk, At: r.Intn(ln + 1), Pipe: pipeSpec{Len: ln, Seed: r.U64(), Chacha: r.Bool(), KN: r.Range(1, 40),
+					Chunk: []int{0, 100, 4096}[r.Intn(3)], Take: []int{0, 16, 1000}[r.Intn(3)]}}
 			case 0:
 				ln := r.Range(0, 3000)
 				if r.Chance(1, 6) {
 					ln = 65536 + r.Range(-2, 40)
 				}
 				j.pipe = pipeSpec{Len: ln, Seed: r.U64(), Chacha: r.Bool(), KN: r.Range(1, 40), Chunk: []int{0, 7, 100, 4096}[r.Intn(4)],
-					Take: []int{0, 16, 1000}[r.Intn(3)], Stream: r.Bool(), Yield: r.Chance(1, 3)}
+					Take: []int{0, 16, 1000}[r.Intn(3)], Stream: r.Bool(), Yield: r.Chance(1, 3), EOFData: r.Chance(1, 3)}
 			case 1:
 				j.spec = cronSpecs[r.Intn(len(cronSpecs))]
 			case 2:
@@ -564,6 +923,10 @@ func runConc(in c08Input) concResult {
 				j.name = r.Intn(W + 2) // equal names across workers and distinct ones
 			case 4:
 				j.data = r.Bytes(r.Range(1, 300))
+				j.name = r.Intn(10)
+				for i := range j.data {
+					j.data[i] |= 1 // never zero: a recycled slice must show zeroes, not these
+				}
 			}
 			jobs[w] = append(jobs[w], j)
 		}
@@ -581,6 +944,8 @@ func runConc(in c08Input) concResult {
 				j.solo = cronResult(j.spec)
 			case 2:
 				j.solo = cryptoResult(j.seed)
+			case 5:
+				j.solo = runFault(j.fault)
 			}
 		}
 	}
@@ -611,14 +976,33 @@ func runConc(in c08Input) concResult {
 						j.result = "Differs"
 						break
 					}
-					s = append(s, j.data...)
-					runtime.Gosched()
-					if bytes.Equal(s, j.data) {
-						j.result = "Same"
+					j.result = "Same"
+					if j.name%2 == 0 {
+						// the whole API: grow with Resize (must show zeroes only), fill, check, Put at full length
+						s = shared.Resize(s, len(j.data)+j.name%5)
+						for _, b := range s {
+							if b != 0 {
+								j.result = "Differs"
+							}
+						}
+						copy(s, j.data)
+						runtime.Gosched()
+						if !bytes.Equal(s[:len(j.data)], j.data) {
+							j.result = "Differs"
+						}
+						for i := len(j.data); i < len(s); i++ {
+							s[i] = j.data[0]
+						}
 					} else {
-						j.result = "Differs"
+						s = append(s, j.data...)
+						runtime.Gosched()
+						if !bytes.Equal(s, j.data) {
+							j.result = "Differs"
+						}
 					}
 					shared.Put(s)
+				case 5:
+					j.result = runFault(j.fault)
 				}
 			}
 			// the schedules this worker kept must still be what they were
@@ -647,7 +1031,7 @@ func runConc(in c08Input) concResult {
 				if cl != "Same" {
 					res.notes = append(res.notes, fmt.Sprintf("worker %d job %d pipeline %+v: %s (solo %s)", w, k, j.pipe, j.result, j.solo))
 				}
-			case 1, 2:
+			case 1, 2, 5:
 				if j.result == j.solo {
 					res.classes = append(res.classes, "Same")
 				} else {
@@ -907,6 +1291,8 @@ func c08Run(ctx *core.Ctx, in c08Input) {
 		c08RegRace(ctx, in)
 	case "cronseq":
 		c08CronSeq(ctx, in)
+	case "poolseq":
+		c08PoolSeq(ctx, in)
 	case "race":
 		c08Race(ctx)
 	default:
@@ -930,7 +1316,15 @@ func positions() []pos {
 
 func randPipe(r *hx.Rand, maxLen int) pipeSpec {
 	return pipeSpec{Len: r.Range(1, maxLen), Seed: r.U64(), Chacha: r.Bool(), KN: r.Range(1, 30),
-		Chunk: []int{0, 16, 64, 100, 1000}[r.Intn(5)], Take: []int{0, 8, 50, 1000}[r.Intn(4)]}
+		Chunk: []int{0, 16, 64, 100, 1000}[r.Intn(5)], Take: []int{0, 8, 50, 1000}[r.Intn(4)], EOFData: r.Chance(1, 4)}
+}
+
+var faultKinds = []string{"tamper", "truncate", "closeearly", "enccloseearly", "srcfail", "encsrcfail", "unwrapfail", "badheader"}
+
+// positions at which A holds a pooled buffer (or has just returned one) while the nested pipelines run
+func heldPositions() []pos {
+	return []pos{{false, "src", 0}, {false, "src", 1}, {false, "cons", 1}, {false, "cons", 2}, {true, "src", 0}, {true, "src", 2},
+		{true, "src", 3}, {true, "cons", 0}, {true, "cons", 1}, {true, "unwrap", 0}}
 }
 
 func c08Gen(ctx *core.Ctx) {
@@ -981,6 +1375,44 @@ func c08Gen(ctx *core.Ctx) {
 			nests = append(nests, nestSpec{Dec: p.dec, Kind: p.kind, Idx: p.idx, Pipes: []int{j}})
 		}
 		c08Run(ctx, c08Input{Kind: "nested", Pipes: pipes, Nests: nests})
+	}
+	// a FAULT (a stream that ends on one of the library's error paths), then two or more streams in
+	// flight at once: the fault runs before A starts, or inside an early callback of A; the other
+	// pipelines run inside a later callback during which A holds its buffer
+	for rep := 0; rep < 3*mult; rep++ {
+		for _, fk := range faultKinds {
+			fp := randPipe(r, 300)
+			if r.Chance(1, 5) {
+				fp.Len = 65536 + r.Range(1, 300) // the error hits the second segment
+				fp.Chunk = []int{0, 30000}[r.Intn(2)]
+			}
+			f := faultSpec{Fault: fk, Pipe: fp, At: r.Intn(fp.Len + 1)}
+			a := randPipe(r, 300)
+			a.Len, a.Chunk, a.Take = r.Range(60, 300), []int{16, 64, 100}[r.Intn(3)], []int{8, 50, 100}[r.Intn(3)]
+			b := randPipe(r, 300)
+			c := randPipe(r, 300)
+			c.Stream = true
+			hp := heldPositions()
+			p := hp[r.Intn(len(hp))]
+			in := c08Input{Kind: "nested", Pipes: []pipeSpec{a, b, c}, Faults: []faultSpec{f},
+				Nests: []nestSpec{{Dec: p.dec, Kind: p.kind, Idx: p.idx, Pipes: []int{1, 2}}}}
+			if rep%3 == 1 {
+				// the fault itself runs inside A's WrapKeyFn, the pipelines later
+				in.Nests = append([]nestSpec{{Dec: false, Kind: "wrap", Idx: 0, Pipes: []int{-1}}}, in.Nests...)
+			}
+			if rep%3 == 2 {
+				// two faults in a row, the second inside the callback right before the pipelines
+				f2 := faultSpec{Fault: faultKinds[r.Intn(len(faultKinds))], Pipe: randPipe(r, 300), At: r.Intn(100)}
+				in.Faults = append(in.Faults, f2)
+				in.Nests[0].Pipes = []int{-2, 1, 2}
+			}
+			c08Run(ctx, in)
+		}
+	}
+	// byteslicepool: the whole API (Get / append / Resize on both sides of the capacity / Put) by 2..3
+	// users of one pool, each writing its own alphabet
+	for k := 0; k < 60*mult; k++ {
+		c08Run(ctx, genPoolSeq(r))
 	}
 	// around the segment boundaries (carry-over byte, two segments)
 	for _, ln := range []int{65535, 65536, 65537, 65536 + 17, 131072, 131073, 70000} {
